@@ -700,6 +700,9 @@ impl AdtBuilder {
         if let Some(_water) = &self.water_data {
             validate_version_chunk_compatibility(self.version, ChunkId::MH2O)?;
         }
+        if let Some(_flags) = &self.texture_flags {
+            validate_version_chunk_compatibility(self.version, ChunkId::MTXF)?;
+        }
         if let Some(_amp) = &self.texture_amplifier {
             validate_version_chunk_compatibility(self.version, ChunkId::MAMP)?;
         }
